@@ -234,7 +234,7 @@ func resolveIn(data map[string]interface{}, src string) (interface{}, error, boo
 	var rerr error
 	p, pv := core.Call(func() { v, rerr = r.Resolve(context.Background(), sc.Expression) })
 	if !p && rerr == nil {
-		if e2 := secondEvaluation(sc, src, context.Background(), data, outcome(v, nil, false, nil)); e2 != nil {
+		if e2 := secondEvaluationOn(r, sc, src, context.Background(), data, outcome(v, nil, false, nil)); e2 != nil {
 			return nil, e2, false, nil
 		}
 	}
